@@ -237,6 +237,8 @@ def goodHead (lvl : Nat) : Tok → Bool
   | .name _ | .int _ | .float _ | .imag _ | .str _ _ | .bytes _ => true
   | .kw .true | .kw .false | .kw .none => true
   | .op .ellipsis | .op .lpar | .op .lsqb | .op .lbrace => true
+  | .fstr .. => true
+  | .kw .lambda => decide (lvl ≤ 1)
   | .kw .not => decide (lvl ≤ 4)
   | .op .plus | .op .minus | .op .tilde => decide (lvl ≤ 12)
   | .kw .await => decide (lvl ≤ 14)
@@ -797,6 +799,65 @@ theorem noAssignCmps (p : Nat → Bool) : (cs : List Expr) → inFragList cs = t
     simp [unparseCmps, h1, h2, toks_cmpOpOuts_noAssign]
 end
 
+/-! ## what the lemmas below need to know about the first tokens of a rendering -/
+
+/-- the token list does not begin with `name :=` or `name =` (which `NamedExpressionTest` / `FunctionArgument`
+    would read as a binding) -/
+def NoBind (ts : List Tok) : Prop :=
+  ∀ n r', ts ≠ .name n :: .op .walrus :: r' ∧ ts ≠ .name n :: .op .assign :: r'
+
+theorem NoBind.append {ts : List Tok} (h : NoBind ts) (hne : ts ≠ []) {c : Tok} (hc1 : c ≠ .op .walrus)
+    (hc2 : c ≠ .op .assign) (rest : List Tok) : NoBind (ts ++ c :: rest) := by
+  intro n r'
+  cases ts with
+  | nil => exact absurd rfl hne
+  | cons a as =>
+    cases as with
+    | nil =>
+      constructor
+      · intro h'; simp at h'; exact hc1 h'.2.1
+      · intro h'; simp at h'; exact hc2 h'.2.1
+    | cons b bs =>
+      constructor
+      · intro h'; simp at h'; obtain ⟨rfl, rfl, _⟩ := h'; exact (h n bs).1 rfl
+      · intro h'; simp at h'; obtain ⟨rfl, rfl, _⟩ := h'; exact (h n bs).2 rfl
+
+theorem NoBind.of_head {t : Tok} {r : List Tok} (h : ∀ n, t ≠ .name n) : NoBind (t :: r) := by
+  intro n r'
+  constructor <;> (intro h'; simp at h'; exact h n h'.1)
+
+theorem NoBind.of_second {t t2 : Tok} {r : List Tok} (h1 : t2 ≠ .op .walrus) (h2 : t2 ≠ .op .assign) :
+    NoBind (t :: t2 :: r) := by
+  intro n r'
+  constructor <;> (intro h'; simp at h'; first | exact h1 h'.2.1 | exact h2 h'.2.1)
+
+theorem NoBind.single (t : Tok) : NoBind [t] := by
+  intro n r'; constructor <;> (intro h'; simp at h')
+
+theorem NoBind.of_not_mem {ts : List Tok} (hw : Tok.op .walrus ∉ ts) (ha : Tok.op .assign ∉ ts) : NoBind ts := by
+  intro n r'
+  constructor
+  · intro h'; subst h'; simp at hw
+  · intro h'; subst h'; simp at ha
+
+theorem NoBind.walrus {ts : List Tok} (h : NoBind ts) : ∀ n r', ts ≠ .name n :: .op .walrus :: r' :=
+  fun n r' => (h n r').1
+
+theorem NoBind.assign {ts : List Tok} (h : NoBind ts) : ∀ n r', ts ≠ .name n :: .op .assign :: r' :=
+  fun n r' => (h n r').2
+
+/-- what the per-constructor lemmas use of a node that stands in an operand position: the first token of its
+    rendering at every level (never one that a lower grammar level would take for its own), no `name :=` / `name =`
+    at the front when rendered at an operand level, and not a `Starred` -/
+structure Plain (p : Nat → Bool) (e : Expr) : Prop where
+  head : ∀ lvl : Nat, ∃ t r, toks (unparse p e lvl) = t :: r ∧ goodHead lvl t = true
+  nobind : ∀ lvl : Nat, 1 ≤ lvl → NoBind (toks (unparse p e lvl))
+  ns : isStarred e = false
+
+theorem Plain.ne_nil {p : Nat → Bool} {e : Expr} (h : Plain p e) (lvl : Nat) : toks (unparse p e lvl) ≠ [] := by
+  obtain ⟨t, r, ht, _⟩ := h.head lvl
+  rw [ht]; simp
+
 /-! ## atoms and parentheses -/
 
 /-- the next token is not a string literal (which would be concatenated to a preceding one) -/
@@ -913,6 +974,33 @@ theorem parses_paren {ts : List Tok} {e : Expr} {rest : List Tok}
   rw [← parseAt_15] at h2
   exact lift h1 h15 (Nat.le_refl _) h2 rfl hs
 
+/-- `atom_paren` with the weaker hypothesis on the first two tokens (`:=` may occur further inside) -/
+theorem atom_paren' {ts : List Tok} {e : Expr} {rest : List Tok}
+    (h : Parses parseTest (ts ++ .op .rpar :: rest) e (.op .rpar :: rest))
+    (hhead : ∃ t r, ts = t :: r ∧ goodHead 1 t = true) (hw : NoBind ts)
+    (hns : isStarred e = false) :
+    Parses parseAtom (.op .lpar :: (ts ++ .op .rpar :: rest)) e rest := by
+  obtain ⟨t, r, rfl, hg⟩ := hhead
+  obtain ⟨n, hn⟩ := h
+  refine ⟨n + 6, fun fuel hf => ?_⟩
+  obtain ⟨f, rfl⟩ : ∃ f, fuel = f + 6 := ⟨fuel - 6, by omega⟩
+  have hT := hn (f + 2) (by omega)
+  rw [parseAtom]
+  show parseParenAtom (f + 5) _ = _
+  unfold parseParenAtom
+  split
+  · omega
+  · rename_i heq; simp at heq; obtain ⟨rfl, _⟩ := heq; simp [goodHead] at hg
+  · rename_i heq; simp at heq; obtain ⟨rfl, _⟩ := heq; simp [goodHead] at hg
+  · rename_i r' heq' _ _
+    obtain rfl : r' = f + 4 := by omega
+    have hw' := (hw.append (by simp) (c := .op .rpar) (by simp) (by simp) rest).walrus
+    rw [show t :: r ++ Tok.op Op.rpar :: rest = t :: (r ++ .op .rpar :: rest) from rfl] at hT hw' ⊢
+    rw [starOrNamed_of_test hT hg hw']
+    simp only [atCompFor, Bool.false_eq_true, if_false]
+    rw [parseElems_close _ _ (by decide)]
+    simp [hns]
+
 /-! ## the round-trip statement per node -/
 
 /-- `e`, rendered at any level and followed by input that does not continue it, is read back by the
@@ -933,13 +1021,39 @@ theorem inFrag_not_starred {e : Expr} (h : inFrag e = true) : isStarred e = fals
 theorem contTok_rpar (lvl : Nat) : contTok lvl (.op .rpar) = false := by
   simp [contTok, isTrailerStart, isStringTok, binLevelOf, binOpOf, isCmpStart]
 
+/-- every expression of the operator core is `Plain` -/
+theorem plain_of_inFrag (p : Nat → Bool) {e : Expr} (h : inFrag e = true) : Plain p e where
+  head := fun lvl => firstTok p e h lvl
+  nobind := fun lvl _ => NoBind.of_not_mem (noWalrus p e h lvl) (noAssign p e h lvl)
+  ns := inFrag_not_starred h
+
+/-- `Plain` for a node with a `group_if!` at level `prec ≥ 1`, from its rendering at that level -/
+theorem plain_of_own (p : Nat → Bool) {e : Expr} {prec : Nat} (hk : kindPrec (kindOf e) = some prec) (hp1 : 1 ≤ prec)
+    (hh : ∃ t r, toks (unparse p e prec) = t :: r ∧ goodHead prec t = true)
+    (hnb : NoBind (toks (unparse p e prec))) (hns : isStarred e = false) : Plain p e where
+  head := fun lvl => by
+    rw [unparse_group p e lvl prec hk, toks_groupIf]
+    by_cases hg : lvl > prec
+    · exact ⟨.op .lpar, _, by rw [if_pos (by simpa using hg)], rfl⟩
+    · rw [if_neg (by simpa using hg)]
+      obtain ⟨t, r, ht, hgood⟩ := hh
+      exact ⟨t, r, ht, goodHead_anti (by omega) hgood⟩
+  nobind := fun lvl _ => by
+    rw [unparse_group p e lvl prec hk, toks_groupIf]
+    by_cases hg : lvl > prec
+    · rw [if_pos (by simpa using hg)]
+      exact NoBind.of_head (by intro n; simp)
+    · rw [if_neg (by simpa using hg)]
+      exact hnb
+  ns := hns
+
 /-- from the node's own level to every level (parenthesised above it) -/
-theorem rt_of_own (p : Nat → Bool) {e : Expr} {prec : Nat} (hf : inFrag e = true)
+theorem rt_of_own (p : Nat → Bool) {e : Expr} {prec : Nat} (hP : Plain p e)
     (hk : kindPrec (kindOf e) = some prec) (hp1 : 1 ≤ prec) (hp15 : prec ≤ 15)
     (hown : ∀ rest, Stop prec rest → Parses (parseAt prec) (toks (unparse p e prec) ++ rest) e rest) :
     RT p e := by
   intro lvl rest h1 h15 hs
-  obtain ⟨t, r, ht, hg⟩ := firstTok p e hf prec
+  obtain ⟨t, r, ht, hg⟩ := hP.head prec
   rw [unparse_group p e lvl prec hk, toks_groupIf]
   by_cases hgt : lvl > prec
   · rw [if_pos (by simpa using hgt)]
@@ -950,8 +1064,10 @@ theorem rt_of_own (p : Nat → Bool) {e : Expr} {prec : Nat} (hf : inFrag e = tr
     rw [parseAt_1] at hT
     have hT' : Parses parseTest (toks (unparse p e prec) ++ .op .rpar :: rest) e (.op .rpar :: rest) := by
       rw [ht]; exact hT
-    have := parses_paren hT' ⟨t, r, ht, goodHead_anti hp1 hg⟩ (noWalrus p e hf prec)
-      (inFrag_not_starred hf) h1 h15 hs
+    have h2 := step_atomExpr2 (atom_paren' hT' ⟨t, r, ht, goodHead_anti hp1 hg⟩ (hP.nobind prec hp1) hP.ns)
+      (hs.mono h15)
+    rw [← parseAt_15] at h2
+    have := lift h1 h15 (Nat.le_refl _) h2 rfl hs
     simpa using this
   · rw [if_neg (by simpa using hgt)]
     have h0 := hown rest (hs.mono (by omega))
@@ -1006,8 +1122,8 @@ theorem rt_const (p : Nat → Bool) (c : Const) : RT p (.const c) := by
 
 /-! ### await -/
 
-theorem rt_await (p : Nat → Bool) (x : Expr) (hx : inFrag x = true) (ih : RT p x) : RT p (.await x) := by
-  refine rt_of_own p (prec := 14) (by simpa [inFrag] using hx) rfl (by omega) (by omega) ?_
+theorem rt_await (p : Nat → Bool) (x : Expr) (hP : Plain p (.await x)) (ih : RT p x) : RT p (.await x) := by
+  refine rt_of_own p (prec := 14) hP rfl (by omega) (by omega) ?_
   intro rest hs
   have hx15 := ih 15 rest (by omega) (by omega) (hs.mono (by omega))
   rw [parseAt_15] at hx15
@@ -1023,8 +1139,8 @@ theorem rt_await (p : Nat → Bool) (x : Expr) (hx : inFrag x = true) (ih : RT p
 
 /-! ### unary operators -/
 
-theorem rt_not (p : Nat → Bool) (x : Expr) (hx : inFrag x = true) (ih : RT p x) : RT p (.unaryOp .not x) := by
-  refine rt_of_own p (prec := 4) (by simpa [inFrag] using hx) rfl (by omega) (by omega) ?_
+theorem rt_not (p : Nat → Bool) (x : Expr) (hP : Plain p (.unaryOp .not x)) (ih : RT p x) : RT p (.unaryOp .not x) := by
+  refine rt_of_own p (prec := 4) hP rfl (by omega) (by omega) ?_
   intro rest hs
   have hx4 := ih 4 rest (by omega) (by omega) hs
   rw [parseAt_4] at hx4 ⊢
@@ -1037,10 +1153,10 @@ theorem rt_not (p : Nat → Bool) (x : Expr) (hx : inFrag x = true) (ih : RT p x
   show parseNotTest (f + 1) (.kw .not :: (toks (unparse p x 4) ++ rest)) = _
   rw [parseNotTest, hn f hf']
 
-theorem rt_factor (p : Nat → Bool) (o : UnaryOp) (ho : o ≠ .not) (x : Expr) (hx : inFrag x = true)
+theorem rt_factor (p : Nat → Bool) (o : UnaryOp) (ho : o ≠ .not) (x : Expr) (hP : Plain p (.unaryOp o x))
     (ih : RT p x) : RT p (.unaryOp o x) := by
   have hprec : unaryOpPrec o = 12 := by cases o <;> first | rfl | exact absurd rfl ho
-  refine rt_of_own p (prec := 12) (by simpa [inFrag] using hx) (by simp [kindOf, kindPrec, hprec]) (by omega) (by omega) ?_
+  refine rt_of_own p (prec := 12) hP (by simp [kindOf, kindPrec, hprec]) (by omega) (by omega) ?_
   intro rest hs
   have hx12 := ih 12 rest (by omega) (by omega) hs
   rw [parseAt_12] at hx12 ⊢
@@ -1062,9 +1178,9 @@ theorem rt_factor (p : Nat → Bool) (o : UnaryOp) (ho : o ≠ .not) (x : Expr) 
 theorem contTok_dstar_14 : contTok 14 (.op .dstar) = false := by
   simp [contTok, isTrailerStart, isStringTok, binLevelOf, binOpOf, isCmpStart]
 
-theorem rt_pow (p : Nat → Bool) (l r : Expr) (hl : inFrag l = true) (hr : inFrag r = true)
+theorem rt_pow (p : Nat → Bool) (l r : Expr) (hP : Plain p (.binOp l .pow r)) (hr : Plain p r)
     (ihl : RT p l) (ihr : RT p r) : RT p (.binOp l .pow r) := by
-  refine rt_of_own p (prec := 13) (by simp [inFrag, hl, hr]) rfl (by omega) (by omega) ?_
+  refine rt_of_own p (prec := 13) hP rfl (by omega) (by omega) ?_
   intro rest hs
   have htoks : toks (unparse p (.binOp l .pow r) 13) =
       toks (unparse p l 14) ++ .op .dstar :: toks (unparse p r 13) := by
@@ -1075,7 +1191,7 @@ theorem rt_pow (p : Nat → Bool) (l r : Expr) (hl : inFrag l = true) (hr : inFr
   rw [parseAt_14] at h1
   have h2 := ihr 13 rest (by omega) (by omega) hs
   rw [parseAt_13] at h2
-  obtain ⟨t, tr, ht, hg⟩ := firstTok p r hr 13
+  obtain ⟨t, tr, ht, hg⟩ := hr.head 13
   rw [ht] at h2
   have h3 := step_factor h2 (by unfold unaryOpAt; split <;> simp_all [goodHead])
   rw [← ht] at h3
@@ -1151,10 +1267,10 @@ theorem loopRT_bin (p : Nat → Bool) (l : Expr) (o : BinOp) (r : Expr) (ho : o 
 
 /-- … and read at its own level -/
 theorem rt_bin (p : Nat → Bool) (l : Expr) (o : BinOp) (r : Expr) (ho : o ≠ .pow)
-    (hl : inFrag l = true) (hr : inFrag r = true)
+    (hP : Plain p (.binOp l o r))
     (ihl : LoopRT p (binLevel o) l) (ihr : RT p r) : RT p (.binOp l o r) := by
   obtain ⟨hk5, hprec⟩ := binLevel_le o ho
-  refine rt_of_own p (prec := binLevel o + 6) (by simp [inFrag, hl, hr]) (by simp [kindOf, kindPrec, hprec])
+  refine rt_of_own p (prec := binLevel o + 6) hP (by simp [kindOf, kindPrec, hprec])
     (by omega) (by omega) ?_
   intro rest hs
   obtain ⟨j, n, h⟩ := loopRT_bin p l o r ho ihl ihr rest (hs.mono (by omega))
@@ -1233,9 +1349,9 @@ theorem andRest (p : Nat → Bool) : (vs : List Expr) → (∀ v ∈ vs, RT p v)
     simp only
     rw [hn2 f (by omega)]
 
-theorem rt_or (p : Nat → Bool) (v w : Expr) (ws : List Expr) (hf : inFrag (.boolOp .or (v :: w :: ws)) = true)
+theorem rt_or (p : Nat → Bool) (v w : Expr) (ws : List Expr) (hP : Plain p (.boolOp .or (v :: w :: ws)))
     (hv : RT p v) (hvs : ∀ x ∈ w :: ws, RT p x) : RT p (.boolOp .or (v :: w :: ws)) := by
-  refine rt_of_own p (prec := 2) hf rfl (by omega) (by omega) ?_
+  refine rt_of_own p (prec := 2) hP rfl (by omega) (by omega) ?_
   intro rest hs
   rw [parseAt_2]
   have h := hv 3 (.kw .or :: (toks (unparse p w 3) ++ toks (unparseBool p ws .or 3 false) ++ rest))
@@ -1253,9 +1369,9 @@ theorem rt_or (p : Nat → Bool) (v w : Expr) (ws : List Expr) (hf : inFrag (.bo
   simp only
   rw [hn2 f (by omega)]
 
-theorem rt_and (p : Nat → Bool) (v w : Expr) (ws : List Expr) (hf : inFrag (.boolOp .and (v :: w :: ws)) = true)
+theorem rt_and (p : Nat → Bool) (v w : Expr) (ws : List Expr) (hP : Plain p (.boolOp .and (v :: w :: ws)))
     (hv : RT p v) (hvs : ∀ x ∈ w :: ws, RT p x) : RT p (.boolOp .and (v :: w :: ws)) := by
-  refine rt_of_own p (prec := 3) hf rfl (by omega) (by omega) ?_
+  refine rt_of_own p (prec := 3) hP rfl (by omega) (by omega) ?_
   intro rest hs
   rw [parseAt_3]
   have h := hv 4 (.kw .and :: (toks (unparse p w 4) ++ toks (unparseBool p ws .and 4 false) ++ rest))
@@ -1280,9 +1396,9 @@ theorem contTok_if_2 : contTok 2 (.kw .if) = false := by
 theorem contTok_else (lvl : Nat) : contTok lvl (.kw .else) = false := by
   simp [contTok, isTrailerStart, isStringTok, binLevelOf, isCmpStart]
 
-theorem rt_ifExp (p : Nat → Bool) (t b o : Expr) (hf : inFrag (.ifExp t b o) = true)
+theorem rt_ifExp (p : Nat → Bool) (t b o : Expr) (hP : Plain p (.ifExp t b o)) (hb' : Plain p b)
     (ht : RT p t) (hb : RT p b) (ho : RT p o) : RT p (.ifExp t b o) := by
-  refine rt_of_own p (prec := 1) hf rfl (by omega) (by omega) ?_
+  refine rt_of_own p (prec := 1) hP rfl (by omega) (by omega) ?_
   intro rest hs
   rw [parseAt_1]
   have e1 : toks (unparse p (.ifExp t b o) 1) ++ rest =
@@ -1297,8 +1413,7 @@ theorem rt_ifExp (p : Nat → Bool) (t b o : Expr) (hf : inFrag (.ifExp t b o) =
   obtain ⟨n1, hn1⟩ := h1
   obtain ⟨n2, hn2⟩ := h2
   obtain ⟨n3, hn3⟩ := h3
-  have hb' : inFrag b = true := by simp [inFrag] at hf; exact hf.1.2
-  obtain ⟨tk, tr, htk, hg⟩ := firstTok p b hb' 2
+  obtain ⟨tk, tr, htk, hg⟩ := hb'.head 2
   refine ⟨n1 + n2 + n3 + 1, fun fuel hfu => ?_⟩
   obtain ⟨f, rfl⟩ : ∃ f, fuel = f + 1 := ⟨fuel - 1, by omega⟩
   rw [e1]
@@ -1341,7 +1456,7 @@ theorem stop6_cmps (p : Nat → Bool) (ops : List CmpOp) (cs : List Expr) (rest 
       exact contTok_cmp_6 o _ _ h'
 
 theorem cmpRest (p : Nat → Bool) : (cs : List Expr) → (ops : List CmpOp) → ops.length = cs.length →
-    (∀ c ∈ cs, RT p c ∧ inFrag c = true) → ∀ rest, Stop 5 rest → ∃ n, ∀ f, n ≤ f →
+    (∀ c ∈ cs, RT p c ∧ Plain p c) → ∀ rest, Stop 5 rest → ∃ n, ∀ f, n ≤ f →
       parseCmpRest f (toks (unparseCmps p ops cs) ++ rest) = some ((ops, cs), rest)
   | [], [], _, _, rest, hs => by
     refine ⟨1, fun fuel hf => ?_⟩
@@ -1357,7 +1472,7 @@ theorem cmpRest (p : Nat → Bool) : (cs : List Expr) → (ops : List CmpOp) →
     obtain ⟨n1, hn1⟩ := h1
     obtain ⟨n2, hn2⟩ := cmpRest p cs os (by simpa using hl)
       (fun x hx => hcs x (List.mem_cons_of_mem _ hx)) rest hs
-    obtain ⟨t, tr, ht, hg⟩ := firstTok p c hcf 6
+    obtain ⟨t, tr, ht, hg⟩ := hcf.head 6
     refine ⟨n1 + n2 + 1, fun fuel hf => ?_⟩
     obtain ⟨f, rfl⟩ : ∃ f, fuel = f + 1 := ⟨fuel - 1, by omega⟩
     have e1 : toks (unparseCmps p (o :: os) (c :: cs)) ++ rest =
@@ -1372,13 +1487,11 @@ theorem cmpRest (p : Nat → Bool) : (cs : List Expr) → (ops : List CmpOp) →
     rw [hn2 f (by omega)]
 
 theorem rt_compare (p : Nat → Bool) (l : Expr) (ops : List CmpOp) (cs : List Expr)
-    (hf : inFrag (.compare l ops cs) = true) (hl : RT p l)
-    (hcs : ∀ c ∈ cs, RT p c ∧ inFrag c = true) : RT p (.compare l ops cs) := by
-  refine rt_of_own p (prec := 5) hf rfl (by omega) (by omega) ?_
+    (hP : Plain p (.compare l ops cs)) (hlen : ops.length = cs.length) (hne : cs ≠ []) (hl : RT p l)
+    (hcs : ∀ c ∈ cs, RT p c ∧ Plain p c) : RT p (.compare l ops cs) := by
+  refine rt_of_own p (prec := 5) hP rfl (by omega) (by omega) ?_
   intro rest hs
   rw [parseAt_5]
-  have hlen : ops.length = cs.length := by simp [inFrag] at hf; exact hf.1.2
-  have hne : cs ≠ [] := by simp [inFrag] at hf; exact hf.1.1.2
   have h1 := hl 6 (toks (unparseCmps p ops cs) ++ rest) (by omega) (by omega) (stop6_cmps p ops cs rest hs)
   rw [parseAt_bin (k := 0) (by omega)] at h1
   obtain ⟨n1, hn1⟩ := h1
@@ -1394,7 +1507,7 @@ theorem rt_compare (p : Nat → Bool) (l : Expr) (ops : List CmpOp) (cs : List E
   obtain ⟨c, cs', rfl⟩ : ∃ c cs', cs = c :: cs' := by cases cs with | nil => exact absurd rfl hne | cons c cs' => exact ⟨c, cs', rfl⟩
   obtain ⟨o, os, rfl⟩ : ∃ o os, ops = o :: os := by cases ops with | nil => simp at hlen | cons o os => exact ⟨o, os, rfl⟩
   obtain ⟨hc, hcf⟩ := hcs c (List.mem_cons_self ..)
-  obtain ⟨t, tr, ht, hg⟩ := firstTok p c hcf 6
+  obtain ⟨t, tr, ht, hg⟩ := hcf.head 6
   have e2 : toks (unparseCmps p (o :: os) (c :: cs')) ++ rest =
       toks (cmpOpOuts o) ++ (toks (unparse p c 6) ++ (toks (unparseCmps p os cs') ++ rest)) := by
     simp [unparseCmps, Prec.CMP]
@@ -1427,10 +1540,10 @@ theorem noStr_rpar (rest : List Tok) : NoStr (.op .rpar :: rest) := by
   intro t r h; cases h; rfl
 
 /-- a node with a precedence level below the atom level is written in parentheses at atom level -/
-theorem atomRT_of_rt (p : Nat → Bool) {e : Expr} {prec : Nat} (hf : inFrag e = true)
+theorem atomRT_of_rt (p : Nat → Bool) {e : Expr} {prec : Nat} (hP : Plain p e)
     (hk : kindPrec (kindOf e) = some prec) (hp1 : 1 ≤ prec) (hp : prec < 15) (hrt : RT p e) : AtomRT p e := by
   intro rest _
-  obtain ⟨t, r, ht, hg⟩ := firstTok p e hf prec
+  obtain ⟨t, r, ht, hg⟩ := hP.head prec
   rw [unparse_group p e 15 prec hk, toks_groupIf, if_pos (by simpa using hp)]
   have hin := hrt prec (.op .rpar :: rest) hp1 (by omega) (Stop.cons (contTok_rpar _))
   rw [ht] at hin
@@ -1438,7 +1551,7 @@ theorem atomRT_of_rt (p : Nat → Bool) {e : Expr} {prec : Nat} (hf : inFrag e =
   rw [parseAt_1] at hT
   have hT' : Parses parseTest (toks (unparse p e prec) ++ .op .rpar :: rest) e (.op .rpar :: rest) := by
     rw [ht]; exact hT
-  have := atom_paren hT' ⟨t, r, ht, goodHead_anti hp1 hg⟩ (noWalrus p e hf prec) (inFrag_not_starred hf)
+  have := atom_paren' hT' ⟨t, r, ht, goodHead_anti hp1 hg⟩ (hP.nobind prec hp1) hP.ns
   simpa using this
 
 /-- from the trailer form to every level, for kinds that are never parenthesised -/
@@ -1491,226 +1604,7 @@ def isClose (o : Op) : Bool := o == .rpar || o == .rsqb || o == .rbrace
 theorem contTok_close {o : Op} (h : isClose o = true) (lvl : Nat) : contTok lvl (.op o) = false := by
   cases o <;> simp [isClose] at h <;> simp [contTok, isTrailerStart, isStringTok, binLevelOf, binOpOf, isCmpStart]
 
-theorem second_not_walrus {ts : List Tok} {c : Tok} {rest : List Tok} (hw : Tok.op .walrus ∉ ts)
-    (hne : ts ≠ []) (hc : c ≠ .op .walrus) : ∀ n r', ts ++ c :: rest ≠ .name n :: .op .walrus :: r' := by
-  intro n r' h
-  cases ts with
-  | nil => exact hne rfl
-  | cons a as =>
-    cases as with
-    | nil => simp at h; exact hc h.2.1
-    | cons b bs => simp at h; obtain ⟨_, rfl, _⟩ := h; simp at hw
-
-/-- one element of a display, followed by `,` or a closing bracket -/
-theorem elem_starOrNamed (p : Nat → Bool) {x : Expr} (hx : RT p x) (hfx : inFrag x = true) {c : Tok}
-    (hc : contTok 1 c = false) (hcw : c ≠ .op .walrus) (rest : List Tok) :
-    ∃ n, ∀ f, n ≤ f → parseStarOrNamed f (toks (unparse p x 1) ++ c :: rest) = some (x, c :: rest) := by
-  obtain ⟨t, r, ht, hg⟩ := firstTok p x hfx 1
-  have h := hx 1 (c :: rest) (Nat.le_refl _) (by omega) (Stop.cons hc)
-  rw [parseAt_1] at h
-  obtain ⟨n, hn⟩ := h
-  refine ⟨n + 2, fun fuel hf => ?_⟩
-  obtain ⟨f, rfl⟩ : ∃ f, fuel = f + 2 := ⟨fuel - 2, by omega⟩
-  have hT := hn f (by omega)
-  have hw := second_not_walrus (rest := rest) (noWalrus p x hfx 1) (by rw [ht]; simp) hcw
-  rw [ht] at hT hw ⊢
-  exact starOrNamed_of_test hT hg hw
-
-/-- the elements after the first one, up to the closing bracket -/
-theorem elemsRT (p : Nat → Bool) (close : Op) (hcl : isClose close = true) : (xs : List Expr) →
-    (∀ x ∈ xs, RT p x ∧ inFrag x = true) → ∀ rest, ∃ n, ∀ f, n ≤ f →
-      parseElems f close (toks (unparseSeq p xs 1 false) ++ .op close :: rest) = some ((xs, !xs.isEmpty), rest)
-  | [], _, rest => by
-    refine ⟨1, fun fuel hf => ?_⟩
-    obtain ⟨f, rfl, _⟩ := fuel_succ hf
-    simp only [unparseSeq, toks_nil, List.nil_append]
-    rw [parseElems_close f close (by cases close <;> simp [isClose] at hcl ⊢)]
-    rfl
-  | x :: xs, hxs, rest => by
-    obtain ⟨hx, hfx⟩ := hxs x (List.mem_cons_self ..)
-    obtain ⟨n2, hn2⟩ := elemsRT p close hcl xs (fun y hy => hxs y (List.mem_cons_of_mem _ hy)) rest
-    -- what follows `x`: a comma (more elements) or the closing bracket
-    have hnext : ∃ c r', toks (unparseSeq p xs 1 false) ++ .op close :: rest = c :: r' ∧ contTok 1 c = false ∧
-        c ≠ .op .walrus := by
-      cases xs with
-      | nil => exact ⟨.op close, rest, by simp [unparseSeq], contTok_close hcl 1, by cases close <;> simp [isClose] at hcl ⊢⟩
-      | cons y ys => exact ⟨.op .comma, _, by rw [toks_unparseSeq_cons']; rfl, contTok_comma 1, by simp⟩
-    obtain ⟨c, r', hcr, hc, hcw⟩ := hnext
-    obtain ⟨n1, hn1⟩ := elem_starOrNamed p hx hfx hc hcw r'
-    obtain ⟨t, tr, ht, hg⟩ := firstTok p x hfx 1
-    refine ⟨n1 + n2 + 1, fun fuel hf => ?_⟩
-    obtain ⟨f, rfl⟩ : ∃ f, fuel = f + 1 := ⟨fuel - 1, by omega⟩
-    rw [toks_unparseSeq_cons', List.cons_append, List.append_assoc, hcr]
-    have hs := hn1 f (by omega)
-    have he := hn2 f (by omega)
-    rw [hcr] at he
-    unfold parseElems
-    split
-    · rename_i o r0 heq
-      rw [ht] at heq
-      simp at heq
-      obtain ⟨rfl, _⟩ := heq
-      have hne : o ≠ close := by
-        intro h; subst h
-        cases o <;> simp [isClose] at hcl <;> simp [goodHead] at hg
-      rw [if_neg hne, hs]
-      simp only
-      rw [he]
-      simp
-    · rw [hs]
-      simp only
-      rw [he]
-      simp
-
-
-theorem atCompFor_of_contTok {c : Tok} {r : List Tok} (hc : contTok 1 c = false) (h : c = .op .comma ∨ ∃ o, c = .op o ∧ isClose o = true) :
-    atCompFor (c :: r) = false := by
-  rcases h with rfl | ⟨o, rfl, _⟩ <;> rfl
-
-/-- what follows the first element of a non-empty display -/
-theorem after_first (p : Nat → Bool) (close : Op) (hcl : isClose close = true) (xs : List Expr) (rest : List Tok) :
-    ∃ c r', toks (unparseSeq p xs 1 false) ++ .op close :: rest = c :: r' ∧ contTok 1 c = false ∧
-      c ≠ .op .walrus ∧ atCompFor (c :: r') = false ∧ (∀ r1, c :: r' ≠ .op .colon :: r1) := by
-  cases xs with
-  | nil =>
-    refine ⟨.op close, rest, by simp [unparseSeq], contTok_close hcl 1, ?_, ?_, ?_⟩ <;>
-      cases close <;> simp [isClose] at hcl ⊢ <;> rfl
-  | cons y ys =>
-    exact ⟨.op .comma, _, by rw [toks_unparseSeq_cons']; rfl, contTok_comma 1, by simp, rfl, by simp⟩
-
-theorem atomRT_list (p : Nat → Bool) (xs : List Expr) (hxs : ∀ x ∈ xs, RT p x ∧ inFrag x = true) :
-    AtomRT p (.list xs) := by
-  intro rest _
-  cases xs with
-  | nil =>
-    refine parses_of_eq 2 (fun f => ?_)
-    simp [unparse, unparseSeq, op, parseAtom, parseListAtom]
-  | cons x xs =>
-    obtain ⟨hx, hfx⟩ := hxs x (List.mem_cons_self ..)
-    obtain ⟨c, r', hcr, hc, hcw, hcomp, _⟩ := after_first p .rsqb rfl xs rest
-    obtain ⟨n1, hn1⟩ := elem_starOrNamed p hx hfx hc hcw r'
-    obtain ⟨n2, hn2⟩ := elemsRT p .rsqb rfl xs (fun y hy => hxs y (List.mem_cons_of_mem _ hy)) rest
-    obtain ⟨t, tr, ht, hg⟩ := firstTok p x hfx 1
-    have e1 : toks (unparse p (.list (x :: xs)) 15) ++ rest =
-        .op .lsqb :: (toks (unparse p x 1) ++ (toks (unparseSeq p xs 1 false) ++ .op .rsqb :: rest)) := by
-      simp [unparse, toks_unparseSeq_cons, Prec.TEST, op]
-    refine ⟨n1 + n2 + 2, fun fuel hf => ?_⟩
-    obtain ⟨f, rfl⟩ : ∃ f, fuel = f + 2 := ⟨fuel - 2, by omega⟩
-    have hs := hn1 f (by omega)
-    have he := hn2 f (by omega)
-    rw [e1, hcr, parseAtom]
-    rw [hcr] at he
-    unfold parseListAtom
-    split
-    · omega
-    · rename_i heq; rw [ht] at heq; simp at heq; obtain ⟨rfl, _⟩ := heq; simp [goodHead] at hg
-    · rename_i f' hfe _
-      obtain rfl : f' = f := by omega
-      rw [hs]
-      simp only [hcomp, Bool.false_eq_true, if_false]
-      rw [he]
-
-theorem atomRT_tuple (p : Nat → Bool) (xs : List Expr) (hxs : ∀ x ∈ xs, RT p x ∧ inFrag x = true) :
-    AtomRT p (.tuple xs) := by
-  intro rest _
-  cases xs with
-  | nil =>
-    refine parses_of_eq 2 (fun f => ?_)
-    simp [unparse, op, parseAtom, parseParenAtom]
-  | cons x xs =>
-    obtain ⟨hx, hfx⟩ := hxs x (List.mem_cons_self ..)
-    obtain ⟨t, tr, ht, hg⟩ := firstTok p x hfx 1
-    cases xs with
-    | nil =>
-      -- `(x,)`
-      obtain ⟨n1, hn1⟩ := elem_starOrNamed p hx hfx (contTok_comma 1) (by simp) (.op .rpar :: rest)
-      have e1 : toks (unparse p (.tuple [x]) 15) ++ rest =
-          .op .lpar :: (toks (unparse p x 1) ++ .op .comma :: .op .rpar :: rest) := by
-        simp [unparse, groupIf, unparseSeq, delim, Prec.TUPLE, Prec.TEST, op]
-      refine ⟨n1 + 3, fun fuel hf => ?_⟩
-      obtain ⟨f, rfl⟩ : ∃ f, fuel = f + 3 := ⟨fuel - 3, by omega⟩
-      have hs := hn1 (f + 1) (by omega)
-      rw [e1, parseAtom]
-      unfold parseParenAtom
-      split
-      · omega
-      · rename_i heq; rw [ht] at heq; simp at heq; obtain ⟨rfl, _⟩ := heq; simp [goodHead] at hg
-      · rename_i heq; rw [ht] at heq; simp at heq; obtain ⟨rfl, _⟩ := heq; simp [goodHead] at hg
-      · rename_i f' hfe _ _
-        obtain rfl : f' = f + 1 := by omega
-        rw [hs]
-        simp [atCompFor, parseElems]
-    | cons y ys =>
-      obtain ⟨c, r', hcr, hc, hcw, hcomp, _⟩ := after_first p .rpar rfl (y :: ys) rest
-      obtain ⟨n1, hn1⟩ := elem_starOrNamed p hx hfx hc hcw r'
-      obtain ⟨n2, hn2⟩ := elemsRT p .rpar rfl (y :: ys) (fun z hz => hxs z (List.mem_cons_of_mem _ hz)) rest
-      have e1 : toks (unparse p (.tuple (x :: y :: ys)) 15) ++ rest =
-          .op .lpar :: (toks (unparse p x 1) ++ (toks (unparseSeq p (y :: ys) 1 false) ++ .op .rpar :: rest)) := by
-        simp [unparse, groupIf, toks_unparseSeq_cons, Prec.TUPLE, Prec.TEST, op]
-      refine ⟨n1 + n2 + 2, fun fuel hf => ?_⟩
-      obtain ⟨f, rfl⟩ : ∃ f, fuel = f + 2 := ⟨fuel - 2, by omega⟩
-      have hs := hn1 f (by omega)
-      have he := hn2 f (by omega)
-      rw [e1, hcr, parseAtom]
-      rw [hcr] at he
-      unfold parseParenAtom
-      split
-      · omega
-      · rename_i heq; rw [ht] at heq; simp at heq; obtain ⟨rfl, _⟩ := heq; simp [goodHead] at hg
-      · rename_i heq; rw [ht] at heq; simp at heq; obtain ⟨rfl, _⟩ := heq; simp [goodHead] at hg
-      · rename_i f' hfe _ _
-        obtain rfl : f' = f := by omega
-        rw [hs]
-        simp only [hcomp, Bool.false_eq_true, if_false]
-        rw [he]
-
-theorem atomRT_set (p : Nat → Bool) (x : Expr) (xs : List Expr) (hxs : ∀ y ∈ x :: xs, RT p y ∧ inFrag y = true) :
-    AtomRT p (.set (x :: xs)) := by
-  intro rest _
-  obtain ⟨hx, hfx⟩ := hxs x (List.mem_cons_self ..)
-  obtain ⟨t, tr, ht, hg⟩ := firstTok p x hfx 1
-  obtain ⟨c, r', hcr, hc, hcw, hcomp, hcolon⟩ := after_first p .rbrace rfl xs rest
-  obtain ⟨n2, hn2⟩ := elemsRT p .rbrace rfl xs (fun z hz => hxs z (List.mem_cons_of_mem _ hz)) rest
-  have h1 := hx 1 (c :: r') (Nat.le_refl _) (by omega) (Stop.cons hc)
-  rw [parseAt_1] at h1
-  obtain ⟨n1, hn1⟩ := h1
-  have e1 : toks (unparse p (.set (x :: xs)) 15) ++ rest =
-      .op .lbrace :: (toks (unparse p x 1) ++ (toks (unparseSeq p xs 1 false) ++ .op .rbrace :: rest)) := by
-    simp [unparse, toks_unparseSeq_cons, Prec.TEST, op]
-  have hw := second_not_walrus (rest := r') (noWalrus p x hfx 1) (by rw [ht]; simp) hcw
-  refine ⟨n1 + n2 + 3, fun fuel hf => ?_⟩
-  obtain ⟨f, rfl⟩ : ∃ f, fuel = f + 3 := ⟨fuel - 3, by omega⟩
-  have hs := hn1 f (by omega)
-  have he := hn2 (f + 1) (by omega)
-  have hfirst : parseBraceFirst (f + 1) (toks (unparse p x 1) ++ c :: r') = some (x, true, c :: r') := by
-    unfold parseBraceFirst
-    split
-    · omega
-    · rename_i heq2; rw [ht] at heq2; simp at heq2; obtain ⟨rfl, _⟩ := heq2; simp [goodHead] at hg
-    · rename_i heq2; exact absurd heq2 (hw _ _)
-    · rename_i f' hfe _ _
-      obtain rfl : f' = f := by omega
-      rw [hs]
-  rw [e1, hcr, parseAtom]
-  rw [hcr] at he
-  unfold parseBraceAtom
-  split
-  · omega
-  · rename_i heq; rw [ht] at heq; simp at heq; obtain ⟨rfl, _⟩ := heq; simp [goodHead] at hg
-  · rename_i heq; rw [ht] at heq; simp at heq; obtain ⟨rfl, _⟩ := heq; simp [goodHead] at hg
-  · rename_i f' hfe _ _
-    obtain rfl : f' = f + 1 := by omega
-    rw [hfirst]
-    split
-    · rename_i heq3; simp at heq3; obtain ⟨_, rfl, rfl⟩ := heq3; exact absurd rfl (hcolon _)
-    · rename_i heq3
-      simp at heq3
-      obtain ⟨rfl, _, rfl⟩ := heq3
-      simp only [hcomp, Bool.false_eq_true, if_false]
-      rw [he]
-    · rename_i heq3; simp at heq3
-
-/-! ### calls with positional arguments -/
+/-! ### `NamedExpressionTest` on an operand -/
 
 theorem namedTest_of_test {t : Tok} {r : List Tok} {e : Expr} {rest' : List Tok} {f : Nat}
     (h : parseTest f (t :: r) = some (e, rest'))
@@ -1723,159 +1617,6 @@ theorem namedTest_of_test {t : Tok} {r : List Tok} {e : Expr} {rest' : List Tok}
   · rename_i f' hfe _
     obtain rfl : f' = f := by omega
     exact h
-
-theorem second_not_assign {ts : List Tok} {c : Tok} {rest : List Tok} (hw : Tok.op .assign ∉ ts)
-    (hne : ts ≠ []) (hc : c ≠ .op .assign) : ∀ n r', ts ++ c :: rest ≠ .name n :: .op .assign :: r' := by
-  intro n r' h
-  cases ts with
-  | nil => exact hne rfl
-  | cons a as =>
-    cases as with
-    | nil => simp at h; exact hc h.2.1
-    | cons b bs => simp at h; obtain ⟨_, rfl, _⟩ := h; simp at hw
-
-/-- one positional argument -/
-theorem arg_plain (p : Nat → Bool) {x : Expr} (hx : RT p x) (hfx : inFrag x = true) {c : Tok} {r' : List Tok}
-    (hc : c = .op .comma ∨ c = .op .rpar) (as0 : List Expr) :
-    ∃ n, ∀ f, n ≤ f →
-      parseArg f (toks (unparse p x 1) ++ c :: r') as0 [] false = some (as0 ++ [x], [], false, c :: r') := by
-  obtain ⟨t, tr, ht, hg⟩ := firstTok p x hfx 1
-  have hc1 : contTok 1 c = false := by rcases hc with rfl | rfl; exact contTok_comma 1; exact contTok_rpar 1
-  have hcw : c ≠ .op .walrus := by rcases hc with rfl | rfl <;> simp
-  have hca : c ≠ .op .assign := by rcases hc with rfl | rfl <;> simp
-  have h := hx 1 (c :: r') (Nat.le_refl _) (by omega) (Stop.cons hc1)
-  rw [parseAt_1] at h
-  obtain ⟨n, hn⟩ := h
-  have hw := second_not_walrus (rest := r') (noWalrus p x hfx 1) (by rw [ht]; simp) hcw
-  have ha := second_not_assign (rest := r') (noAssign p x hfx 1) (by rw [ht]; simp) hca
-  refine ⟨n + 2, fun f hf => ?_⟩
-  obtain ⟨f0, rfl⟩ : ∃ f0, f = f0 + 2 := ⟨f - 2, by omega⟩
-  have hT := hn f0 (by omega)
-  rw [ht] at hT hw ha ⊢
-  have hN : parseNamedTest (f0 + 1) (t :: tr ++ c :: r') = some (x, c :: r') := namedTest_of_test hT hw
-  have hcomp : atCompFor (c :: r') = false := by rcases hc with rfl | rfl <;> rfl
-  unfold parseArg
-  split
-  · omega
-  · rename_i heq; exact absurd heq (ha _ _)
-  · rename_i heq; simp at heq; obtain ⟨rfl, _⟩ := heq; simp [goodHead] at hg
-  · rename_i heq; simp at heq; obtain ⟨rfl, _⟩ := heq; simp [goodHead] at hg
-  · rename_i f' hfe _ _ _
-    obtain rfl : f' = f0 + 1 := by omega
-    rw [hN]
-    simp [hcomp]
-
-/-- all positional arguments up to the closing parenthesis -/
-theorem argsRT (p : Nat → Bool) : (xs : List Expr) → (∀ x ∈ xs, RT p x ∧ inFrag x = true) →
-    ∀ (as0 : List Expr) (rest : List Tok), ∃ n, ∀ f, n ≤ f →
-      parseArgs f (toks (unparseSeq p xs 1 true) ++ .op .rpar :: rest) as0 [] false = some ((as0 ++ xs, []), rest)
-  | [], _, as0, rest => by
-    refine ⟨1, fun fuel hf => ?_⟩
-    obtain ⟨f, rfl, _⟩ := fuel_succ hf
-    simp [unparseSeq, parseArgs]
-  | x :: xs, hxs, as0, rest => by
-    obtain ⟨hx, hfx⟩ := hxs x (List.mem_cons_self ..)
-    obtain ⟨t, tr, ht, hg⟩ := firstTok p x hfx 1
-    cases xs with
-    | nil =>
-      obtain ⟨n1, hn1⟩ := arg_plain p hx hfx (c := .op .rpar) (r' := rest) (Or.inr rfl) as0
-      refine ⟨n1 + 1, fun fuel hf => ?_⟩
-      obtain ⟨f, rfl⟩ : ∃ f, fuel = f + 1 := ⟨fuel - 1, by omega⟩
-      have hs := hn1 f (by omega)
-      have e1 : toks (unparseSeq p [x] 1 true) ++ .op .rpar :: rest = toks (unparse p x 1) ++ .op .rpar :: rest := by
-        simp [unparseSeq, delim]
-      rw [e1]
-      unfold parseArgs
-      split
-      · omega
-      · rename_i heq; rw [ht] at heq; simp at heq; obtain ⟨rfl, _⟩ := heq; simp [goodHead] at hg
-      · rename_i f' hfe _
-        obtain rfl : f' = f := by omega
-        rw [hs]
-    | cons y ys =>
-      obtain ⟨n1, hn1⟩ := arg_plain p hx hfx (c := .op .comma)
-        (r' := toks (unparseSeq p (y :: ys) 1 true) ++ .op .rpar :: rest) (Or.inl rfl) as0
-      obtain ⟨n2, hn2⟩ := argsRT p (y :: ys) (fun z hz => hxs z (List.mem_cons_of_mem _ hz)) (as0 ++ [x]) rest
-      refine ⟨n1 + n2 + 1, fun fuel hf => ?_⟩
-      obtain ⟨f, rfl⟩ : ∃ f, fuel = f + 1 := ⟨fuel - 1, by omega⟩
-      have hs := hn1 f (by omega)
-      have he := hn2 f (by omega)
-      have e1 : toks (unparseSeq p (x :: y :: ys) 1 true) ++ .op .rpar :: rest =
-          toks (unparse p x 1) ++ .op .comma :: (toks (unparseSeq p (y :: ys) 1 true) ++ .op .rpar :: rest) := by
-        simp [unparseSeq, delim, op]
-      rw [e1]
-      unfold parseArgs
-      split
-      · omega
-      · rename_i heq; rw [ht] at heq; simp at heq; obtain ⟨rfl, _⟩ := heq; simp [goodHead] at hg
-      · rename_i f' hfe _
-        obtain rfl : f' = f := by omega
-        rw [hs]
-        simp only
-        rw [he]
-        simp
-
-
-theorem trailRT_call (p : Nat → Bool) (fn : Expr) (args : List Expr) (hargs : inFragList args = true)
-    (ihf : TrailRT p fn) (ihargs : ∀ x ∈ args, RT p x ∧ inFrag x = true) : TrailRT p (.call fn args []) := by
-  intro rest _
-  rw [unparse_call_plain p fn args hargs 15, List.append_assoc, List.cons_append, List.append_assoc]
-  obtain ⟨j, n1, h1⟩ := ihf (.op .lpar :: (toks (unparseSeq p args 1 true) ++ ([.op .rpar] ++ rest)))
-    (by intro t r h; cases h; rfl)
-  obtain ⟨n2, h2⟩ := argsRT p args ihargs [] rest
-  refine ⟨j + 1, n1 + n2, fun f hf => ?_⟩
-  rw [show f + (j + 1) = (f + 1) + j by omega, h1 (f + 1) (by omega), parseTrailers]
-  have := h2 f (by omega)
-  simp only [List.singleton_append, List.nil_append] at this ⊢
-  rw [this]
-
-/-- a single plain index between `[` and `]` -/
-theorem subscriptList_plain (p : Nat → Bool) {s : Expr} (hs : RT p s) (hfs : inFrag s = true) (rest : List Tok) :
-    ∃ n, ∀ f, n ≤ f → parseSubscriptList f (toks (unparse p s 1) ++ .op .rsqb :: rest) = some (s, rest) := by
-  obtain ⟨t, tr, ht, hg⟩ := firstTok p s hfs 1
-  have h := hs 1 (.op .rsqb :: rest) (Nat.le_refl _) (by omega) (Stop.cons (contTok_rsqb 1))
-  rw [parseAt_1] at h
-  obtain ⟨n, hn⟩ := h
-  have hw := second_not_walrus (rest := rest) (c := .op .rsqb) (noWalrus p s hfs 1) (by rw [ht]; simp) (by simp)
-  refine ⟨n + 2, fun fuel hf => ?_⟩
-  obtain ⟨f, rfl⟩ : ∃ f, fuel = f + 2 := ⟨fuel - 2, by omega⟩
-  have hT := hn f (by omega)
-  have hsub : parseSubscript (f + 1) (toks (unparse p s 1) ++ .op .rsqb :: rest) = some (s, .op .rsqb :: rest) := by
-    rw [ht] at hT hw ⊢
-    unfold parseSubscript
-    split
-    · omega
-    · rename_i heq; simp at heq; obtain ⟨rfl, _⟩ := heq; simp [goodHead] at hg
-    · rename_i heq; simp at heq; obtain ⟨rfl, _⟩ := heq; simp [goodHead] at hg
-    · rename_i heq; exact absurd heq (hw _ _)
-    · rename_i f' hfe _ _ _
-      obtain rfl : f' = f := by omega
-      rw [hT]
-  rw [parseSubscriptList, hsub]
-
-theorem unparse_plainIndex (p : Nat → Bool) (s : Expr) (hf : inFrag s = true) (hp : plainIndex s = true) :
-    unparse p s 0 = unparse p s 1 := by
-  apply unparse_level_succ
-  cases s with
-  | tuple es => cases es <;> simp [plainIndex, kindOf, kindPrec] at *
-  | namedExpr t v => simp [inFrag] at hf
-  | boolOp o _ => cases o <;> simp [kindOf, kindPrec, boolOpPrec, Prec.AND, Prec.OR]
-  | unaryOp o _ => cases o <;> simp [kindOf, kindPrec, unaryOpPrec, Prec.NOT, Prec.FACTOR]
-  | binOp _ o _ =>
-    cases o <;> simp [kindOf, kindPrec, binOpPrec, Prec.ARITH, Prec.TERM, Prec.POWER, Prec.SHIFT, Prec.BOR,
-      Prec.BXOR, Prec.BAND]
-  | _ => simp [kindOf, kindPrec, Prec.TEST, Prec.CMP, Prec.AWAIT]
-
-theorem trailRT_subscript (p : Nat → Bool) (v s : Expr) (hfs : inFrag s = true) (hp : plainIndex s = true)
-    (ihv : TrailRT p v) (ihs : RT p s) : TrailRT p (.subscript v s) := by
-  intro rest _
-  have e1 : toks (unparse p (.subscript v s) 15) ++ rest =
-      toks (unparse p v 15) ++ .op .lsqb :: (toks (unparse p s 1) ++ .op .rsqb :: rest) := by
-    simp [unparse, Prec.ATOM, Prec.TUPLE, op, unparse_plainIndex p s hfs hp]
-  obtain ⟨j, n1, h1⟩ := ihv (.op .lsqb :: (toks (unparse p s 1) ++ .op .rsqb :: rest)) (by intro t r h; cases h; rfl)
-  obtain ⟨n2, h2⟩ := subscriptList_plain p ihs hfs rest
-  refine ⟨j + 1, n1 + n2, fun f hf => ?_⟩
-  rw [e1, show f + (j + 1) = (f + 1) + j by omega, h1 (f + 1) (by omega), parseTrailers, h2 f (by omega)]
 
 /-! ### dict displays -/
 
@@ -1905,8 +1646,8 @@ theorem toks_dictItems_unpack' (p : Nat → Bool) (v : Expr) (is : List DictItem
 /-- what the induction gives for the entries of a dict display -/
 def GoodItems (p : Nat → Bool) : List DictItem → Prop
   | [] => True
-  | .mk (some k) v :: is => (RT p k ∧ inFrag k = true) ∧ (RT p v ∧ inFrag v = true) ∧ GoodItems p is
-  | .mk none v :: is => (RT p v ∧ inFrag v = true) ∧ GoodItems p is
+  | .mk (some k) v :: is => (RT p k ∧ Plain p k) ∧ (RT p v ∧ Plain p v) ∧ GoodItems p is
+  | .mk none v :: is => (RT p v ∧ Plain p v) ∧ GoodItems p is
 
 /-- what follows a dict value: `,` (more entries) or `}` -/
 theorem after_value (p : Nat → Bool) (is : List DictItem) (rest : List Tok) :
@@ -1966,7 +1707,7 @@ theorem dictRestRT (p : Nat → Bool) : (is : List DictItem) → GoodItems p is 
     obtain ⟨c, r', hcr, hc, _⟩ := after_value p is rest
     obtain ⟨n1, hn1⟩ := dict_entry p hk hv (c := c) (r' := r') (hc 1)
     obtain ⟨n2, hn2⟩ := dictRestRT p is his rest
-    obtain ⟨t, tr, ht, hg⟩ := firstTok p k hfk 1
+    obtain ⟨t, tr, ht, hg⟩ := hfk.head 1
     refine ⟨n1 + n2 + 1, fun fuel hf => ?_⟩
     obtain ⟨f, rfl⟩ : ∃ f, fuel = f + 1 := ⟨fuel - 1, by omega⟩
     obtain ⟨hK, hV⟩ := hn1 f (by omega)
@@ -2021,9 +1762,9 @@ theorem atomRT_dict (p : Nat → Bool) (is : List DictItem) (hg : GoodItems p is
         obtain ⟨c, r', hcr, hc, hcomp⟩ := after_value p is rest
         obtain ⟨n1, hn1⟩ := dict_entry p hk hv (c := c) (r' := r') (hc 1)
         obtain ⟨n2, hn2⟩ := dictRestRT p is his rest
-        obtain ⟨t, tr, ht, hgd⟩ := firstTok p k hfk 1
-        have hw := second_not_walrus (c := .op .colon) (rest := toks (unparse p v 1) ++ c :: r')
-          (noWalrus p k hfk 1) (by rw [ht]; simp) (by simp)
+        obtain ⟨t, tr, ht, hgd⟩ := hfk.head 1
+        have hw := ((hfk.nobind 1 (Nat.le_refl _)).append (hfk.ne_nil 1) (c := .op .colon) (by simp) (by simp)
+          (toks (unparse p v 1) ++ c :: r')).walrus
         have e1 : toks (unparse p (.dict (.mk (some k) v :: is)) 15) ++ rest =
             .op .lbrace :: (toks (unparse p k 1) ++ .op .colon :: (toks (unparse p v 1) ++ c :: r')) := by
           simp [unparse, toks_dictItems_cons, op, ← hcr]
@@ -2079,39 +1820,6 @@ theorem atomRT_yieldFrom (p : Nat → Bool) (x : Expr) (hx : RT p x) : AtomRT p 
   obtain ⟨f, rfl⟩ : ∃ f, fuel = f + 3 := ⟨fuel - 3, by omega⟩
   rw [e1, parseAtom, parseParenAtom, parseYieldAtom, hn f (by omega)]
 
-theorem atomRT_yieldSome (p : Nat → Bool) (x : Expr) (hx : RT p x) (hfx : inFrag x = true) :
-    AtomRT p (.yield (some x)) := by
-  intro rest _
-  obtain ⟨n, hn⟩ := test_then_rpar p hx rest
-  obtain ⟨t, tr, ht, hg⟩ := firstTok p x hfx 1
-  have e1 : toks (unparse p (.yield (some x)) 15) ++ rest =
-      .op .lpar :: .kw .yield :: (toks (unparse p x 1) ++ .op .rpar :: rest) := by
-    simp [unparse, op, kw, Prec.TEST]
-  refine ⟨n + 5, fun fuel hf => ?_⟩
-  obtain ⟨f, rfl⟩ : ∃ f, fuel = f + 5 := ⟨fuel - 5, by omega⟩
-  have hT := hn f (by omega)
-  have hTS : parseTestOrStar (f + 1) (toks (unparse p x 1) ++ .op .rpar :: rest) = some (x, .op .rpar :: rest) := by
-    rw [ht] at hT ⊢
-    unfold parseTestOrStar
-    split
-    · omega
-    · rename_i heq; simp at heq; obtain ⟨rfl, _⟩ := heq; simp [goodHead] at hg
-    · rename_i f' hfe _
-      obtain rfl : f' = f := by omega
-      exact hT
-  have hTL : parseTestList (f + 2) (toks (unparse p x 1) ++ .op .rpar :: rest) = some (x, .op .rpar :: rest) := by
-    rw [parseTestList, hTS]
-  rw [e1, parseAtom, parseParenAtom]
-  rw [ht] at hTL ⊢
-  unfold parseYieldAtom
-  split
-  · omega
-  · rename_i heq; simp at heq; obtain ⟨rfl, _⟩ := heq; simp [goodHead] at hg
-  · rename_i heq; simp at heq; obtain ⟨rfl, _⟩ := heq; simp [goodHead] at hg
-  · rename_i f' hfe _ _
-    obtain rfl : f' = f + 2 := by omega
-    rw [hTL]
-
 /-! ## the induction over the fragment -/
 
 /-- `LoopRT` for a node that is not a left-associative operator of level `k` -/
@@ -2128,7 +1836,7 @@ structure Good (p : Nat → Bool) (e : Expr) : Prop where
   trail : TrailRT p e
 
 /-- a node with its own precedence level `prec < 15` -/
-theorem good_of_rt (p : Nat → Bool) {e : Expr} {prec : Nat} (hf : inFrag e = true)
+theorem good_of_rt (p : Nat → Bool) {e : Expr} {prec : Nat} (hP : Plain p e)
     (hk : kindPrec (kindOf e) = some prec) (hp1 : 1 ≤ prec) (hp : prec < 15) (hrt : RT p e)
     (hloop : ∀ k, k ≤ 5 → k + 6 = prec → LoopRT p k e) : Good p e where
   rt := hrt
@@ -2136,7 +1844,7 @@ theorem good_of_rt (p : Nat → Bool) {e : Expr} {prec : Nat} (hf : inFrag e = t
     by_cases hkk : k + 6 = prec
     · exact hloop k hk5 hkk
     · exact loopRT_other p hk5 (by rw [hk]; simpa using fun h => hkk h.symm) hrt
-  trail := trailRT_of_atomRT (atomRT_of_rt p hf hk hp1 hp hrt)
+  trail := trailRT_of_atomRT (atomRT_of_rt p hP hk hp1 hp hrt)
 
 /-- a node that is never parenthesised -/
 theorem good_of_trail' (p : Nat → Bool) {e : Expr} (hlvl : ∀ lvl, 1 ≤ lvl → unparse p e lvl = unparse p e 15)
@@ -2150,165 +1858,6 @@ theorem good_of_trail' (p : Nat → Bool) {e : Expr} (hlvl : ∀ lvl, 1 ≤ lvl 
 theorem good_of_trail (p : Nat → Bool) {e : Expr} (hk : kindPrec (kindOf e) = none)
     (hfirst : ∃ t r, toks (unparse p e 15) = t :: r ∧ goodHead 15 t = true) (h : TrailRT p e) : Good p e :=
   good_of_trail' p (fun lvl _ => unparse_nogroup p e lvl 15 hk) (fun k => by rw [hk]; simp) hfirst h
-
-mutual
-theorem rt_all (p : Nat → Bool) : (e : Expr) → inFrag e = true → Good p e
-  | .name id, _ =>
-    good_of_trail p rfl ⟨.name id, [], by simp [unparse], rfl⟩
-      (trailRT_of_atomRT (fun rest _ => by simpa [unparse] using atom_name id rest))
-  | .const c, _ =>
-    good_of_trail p rfl ⟨constTok c, [], by simp [unparse], goodHead_constTok c⟩
-      (trailRT_of_atomRT (fun rest hr => by simpa [unparse] using atom_const c rest hr))
-  | .attribute v n, h => by
-    have hv : inFrag v = true := by simpa [inFrag] using h
-    have ihv := rt_all p v hv
-    refine good_of_trail p rfl ?_ (trailRT_attribute p v n ihv.trail)
-    obtain ⟨t, r, ht, hg⟩ := firstTok p (.attribute v n) h 15
-    exact ⟨t, r, ht, hg⟩
-  | .call fn args [], h => by
-    have hfn : inFrag fn = true := by simp [inFrag] at h; exact h.1
-    have hargs : inFragList args = true := by simp [inFrag] at h; exact h.2
-    have ihf := rt_all p fn hfn
-    have ihargs := rt_list p args hargs
-    refine good_of_trail p ?_ ?_
-      (trailRT_call p fn args hargs ihf.trail (fun x hx => ⟨(ihargs x hx).1.rt, (ihargs x hx).2⟩))
-    · cases args <;> rfl
-    · obtain ⟨t, r, ht, hg⟩ := firstTok p (.call fn args []) h 15
-      exact ⟨t, r, ht, hg⟩
-  | .subscript v s, h => by
-    have hv : inFrag v = true := by simp [inFrag] at h; exact h.1.1
-    have hs : inFrag s = true := by simp [inFrag] at h; exact h.1.2
-    have hp : plainIndex s = true := by simp [inFrag] at h; exact h.2
-    have ihv := rt_all p v hv
-    have ihs := rt_all p s hs
-    refine good_of_trail p rfl ?_ (trailRT_subscript p v s hs hp ihv.trail ihs.rt)
-    obtain ⟨t, r, ht, hg⟩ := firstTok p (.subscript v s) h 15
-    exact ⟨t, r, ht, hg⟩
-  | .await v, h => by
-    have hv : inFrag v = true := by simpa [inFrag] using h
-    exact good_of_rt p h (prec := 14) rfl (by omega) (by omega) (rt_await p v hv (rt_all p v hv).rt)
-      (fun k _ hk => by omega)
-  | .dict items, h => by
-    have hi : inFragItems items = true := by simpa [inFrag] using h
-    refine good_of_trail p rfl ?_ (trailRT_of_atomRT (atomRT_dict p items (rt_items p items hi)))
-    obtain ⟨t, r, ht, hg⟩ := firstTok p (.dict items) h 15
-    exact ⟨t, r, ht, hg⟩
-  | .yield none, h =>
-    good_of_trail p rfl ⟨.op .lpar, [.kw .yield, .op .rpar], by simp [unparse, op, kw], rfl⟩
-      (trailRT_of_atomRT (atomRT_yieldNone p))
-  | .yield (some v), h => by
-    have hv : inFrag v = true := by simpa [inFrag] using h
-    refine good_of_trail p rfl ?_ (trailRT_of_atomRT (atomRT_yieldSome p v (rt_all p v hv).rt hv))
-    obtain ⟨t, r, ht, hg⟩ := firstTok p (.yield (some v)) h 15
-    exact ⟨t, r, ht, hg⟩
-  | .yieldFrom v, h => by
-    have hv : inFrag v = true := by simpa [inFrag] using h
-    refine good_of_trail p rfl ?_ (trailRT_of_atomRT (atomRT_yieldFrom p v (rt_all p v hv).rt))
-    obtain ⟨t, r, ht, hg⟩ := firstTok p (.yieldFrom v) h 15
-    exact ⟨t, r, ht, hg⟩
-  | .list es, h => by
-    have hes : inFragList es = true := by simpa [inFrag] using h
-    have ihes := rt_list p es hes
-    refine good_of_trail p rfl ?_ (trailRT_of_atomRT (atomRT_list p es (fun x hx => ⟨(ihes x hx).1.rt, (ihes x hx).2⟩)))
-    obtain ⟨t, r, ht, hg⟩ := firstTok p (.list es) h 15
-    exact ⟨t, r, ht, hg⟩
-  | .set [], h => by simp [inFrag] at h
-  | .set (x :: xs), h => by
-    have hes : inFragList (x :: xs) = true := by simp [inFrag] at h ⊢; simpa [inFragList] using h
-    have ihes := rt_list p (x :: xs) hes
-    refine good_of_trail p rfl ?_ (trailRT_of_atomRT (atomRT_set p x xs (fun y hy => ⟨(ihes y hy).1.rt, (ihes y hy).2⟩)))
-    obtain ⟨t, r, ht, hg⟩ := firstTok p (.set (x :: xs)) h 15
-    exact ⟨t, r, ht, hg⟩
-  | .tuple es, h => by
-    have hes : inFragList es = true := by simpa [inFrag] using h
-    have ihes := rt_list p es hes
-    refine good_of_trail' p ?_ ?_ ?_ (trailRT_of_atomRT (atomRT_tuple p es (fun x hx => ⟨(ihes x hx).1.rt, (ihes x hx).2⟩)))
-    · intro lvl h1
-      cases es with
-      | nil => simp [unparse]
-      | cons x xs =>
-        rw [unparse_group p _ lvl Prec.TUPLE rfl, unparse_group p _ 15 Prec.TUPLE rfl]
-        have : decide (lvl > Prec.TUPLE) = decide (15 > Prec.TUPLE) := by simp [Prec.TUPLE]; omega
-        rw [this]
-    · intro k
-      cases es <;> simp [kindOf, kindPrec, Prec.TUPLE]
-    · obtain ⟨t, r, ht, hg⟩ := firstTok p (.tuple es) h 15
-      exact ⟨t, r, ht, hg⟩
-  | .unaryOp o x, h => by
-    have hx : inFrag x = true := by simpa [inFrag] using h
-    have ihx := (rt_all p x hx).rt
-    by_cases ho : o = .not
-    · subst ho
-      exact good_of_rt p h (prec := 4) rfl (by omega) (by omega) (rt_not p x hx ihx) (fun k _ hk => by omega)
-    · have hprec : unaryOpPrec o = 12 := by cases o <;> first | rfl | exact absurd rfl ho
-      exact good_of_rt p h (prec := 12) (by simp [kindOf, kindPrec, hprec]) (by omega) (by omega)
-        (rt_factor p o ho x hx ihx) (fun k _ hk => by omega)
-  | .binOp l o r, h => by
-    have hl : inFrag l = true := by simp [inFrag] at h; exact h.1
-    have hr : inFrag r = true := by simp [inFrag] at h; exact h.2
-    have ihl := rt_all p l hl
-    have ihr := rt_all p r hr
-    by_cases ho : o = .pow
-    · subst ho
-      exact good_of_rt p h (prec := 13) rfl (by omega) (by omega) (rt_pow p l r hl hr ihl.rt ihr.rt)
-        (fun k _ hk => by omega)
-    · obtain ⟨hk5, hprec⟩ := binLevel_le o ho
-      refine good_of_rt p h (prec := binLevel o + 6) (by simp [kindOf, kindPrec, hprec]) (by omega) (by omega)
-        (rt_bin p l o r ho hl hr (ihl.loop _ hk5) ihr.rt) (fun k _ hk => ?_)
-      obtain rfl : k = binLevel o := by omega
-      exact loopRT_bin p l o r ho (ihl.loop _ hk5) ihr.rt
-  | .boolOp o [], h => by simp [inFrag] at h
-  | .boolOp o [_], h => by simp [inFrag] at h
-  | .boolOp o (v :: w :: ws), h => by
-    have hv : inFrag v = true := by simp [inFrag, inFragList] at h; exact h.1
-    have hws : inFragList (w :: ws) = true := by simp [inFrag, inFragList] at h ⊢; exact h.2
-    have ihv := (rt_all p v hv).rt
-    have ihws := rt_list p (w :: ws) hws
-    cases o
-    · exact good_of_rt p h (prec := 3) rfl (by omega) (by omega)
-        (rt_and p v w ws h ihv (fun x hx => (ihws x hx).1.rt)) (fun k _ hk => by omega)
-    · exact good_of_rt p h (prec := 2) rfl (by omega) (by omega)
-        (rt_or p v w ws h ihv (fun x hx => (ihws x hx).1.rt)) (fun k _ hk => by omega)
-  | .compare l ops cs, h => by
-    have hl : inFrag l = true := by simp [inFrag] at h; exact h.1.1.1
-    have hc : inFragList cs = true := by simp [inFrag] at h; exact h.2
-    have ihl := (rt_all p l hl).rt
-    have ihcs := rt_list p cs hc
-    exact good_of_rt p h (prec := 5) rfl (by omega) (by omega)
-      (rt_compare p l ops cs h ihl (fun c hc => ⟨(ihcs c hc).1.rt, (ihcs c hc).2⟩)) (fun k _ hk => by omega)
-  | .ifExp t b o, h => by
-    have ht : inFrag t = true := by simp [inFrag] at h; exact h.1.1
-    have hb : inFrag b = true := by simp [inFrag] at h; exact h.1.2
-    have ho : inFrag o = true := by simp [inFrag] at h; exact h.2
-    exact good_of_rt p h (prec := 1) rfl (by omega) (by omega)
-      (rt_ifExp p t b o h (rt_all p t ht).rt (rt_all p b hb).rt (rt_all p o ho).rt) (fun k _ hk => by omega)
-  | .namedExpr .., h | .lambda .., h | .listComp .., h
-  | .setComp .., h | .dictComp .., h | .genExp .., h
-  | .call _ _ (_ :: _), h | .formattedValue .., h | .joinedStr .., h
-  | .starred .., h
-  | .slice .., h => by simp [inFrag] at h
-theorem rt_items (p : Nat → Bool) : (is : List DictItem) → inFragItems is = true → GoodItems p is
-  | [], _ => trivial
-  | .mk none v :: is, h => by
-    have hv : inFrag v = true := by simp [inFragItems] at h; exact h.1
-    have his : inFragItems is = true := by simp [inFragItems] at h; exact h.2
-    exact ⟨⟨(rt_all p v hv).rt, hv⟩, rt_items p is his⟩
-  | .mk (some k) v :: is, h => by
-    have hk : inFrag k = true := by simp [inFragItems] at h; exact h.1.1
-    have hv : inFrag v = true := by simp [inFragItems] at h; exact h.1.2
-    have his : inFragItems is = true := by simp [inFragItems] at h; exact h.2
-    exact ⟨⟨(rt_all p k hk).rt, hk⟩, ⟨(rt_all p v hv).rt, hv⟩, rt_items p is his⟩
-theorem rt_list (p : Nat → Bool) : (es : List Expr) → inFragList es = true →
-    ∀ e ∈ es, Good p e ∧ inFrag e = true
-  | [], _ => by simp
-  | x :: xs, h => by
-    have hx : inFrag x = true := by simp [inFragList] at h; exact h.1
-    have hxs : inFragList xs = true := by simp [inFragList] at h; exact h.2
-    intro e he
-    rcases List.mem_cons.mp he with h0 | he'
-    · rw [h0]; exact ⟨rt_all p x hx, hx⟩
-    · exact rt_list p xs hxs e he'
-end
 
 /-! ## failure lifts too -/
 
